@@ -36,6 +36,12 @@ Qed.
 Lemma nps_skipn g buf k : nopanic_suffixes g buf -> nopanic_suffixes g (skipn k buf).
 Proof. intros H j. rewrite skipn_skipn_add. apply H. Qed.
 
+(* a condition on the varints alone: wherever a varint can be read in the buffer, value + header < 2^63 *)
+Lemma nps_of_small_varints buf :
+  (forall k idx uln, unmarshal_uint (skipn k buf) = Ok (idx, uln) -> Z.of_N uln + idx < two63) ->
+  nopanic_suffixes false buf.
+Proof. intros H k. apply ub_small_nopanic. intros idx uln E. exact (H k idx uln E). Qed.
+
 Lemma blen_skipn k buf : 0 <= k <= blen buf -> blen (skipn (Z.to_nat k) buf) = blen buf - k.
 Proof. intros H. unfold blen in *. rewrite skipn_length. lia. Qed.
 
